@@ -205,8 +205,16 @@ func (g *Gen) resolveType(text, specPkg, curPkg string) types.Type {
 	}
 	if i := strings.LastIndex(text, "."); i >= 0 {
 		pn, name := text[:i], text[i+1:]
-		for _, p := range g.allPkgs {
-			if p.Types != nil && (p.Types.Name() == pn || p.Types.Path() == pn) {
+		// several packages may share a name (compress/gzip and fabio's proxy/gzip): take the first that has the
+		// type, repository packages first
+		for pass := 0; pass < 2; pass++ {
+			for _, p := range g.allPkgs {
+				if p.Types == nil || !(p.Types.Name() == pn || p.Types.Path() == pn) {
+					continue
+				}
+				if (pass == 0) != strings.HasPrefix(p.Types.Path(), g.modPath) {
+					continue
+				}
 				if o := p.Types.Scope().Lookup(name); o != nil {
 					if tn, ok := o.(*types.TypeName); ok {
 						return tn.Type()
